@@ -755,6 +755,16 @@ impl Model for V6 {
     }
 }
 
+/// history: {a}; FieldAdded("t", 5); FieldMadeTransient("t") - the transient default (3) differs
+/// from the default of the earlier FieldAdded step (5)
+#[derive(BinaryCodec)]
+#[evolution(FieldAdded("t", 5u8), FieldMadeTransient("t"))]
+pub struct V7 {
+    pub a: u8,
+    #[transient(3u8)]
+    pub t: u8,
+}
+
 /// two added fields in two generations, written out of generation order in the declaration
 #[derive(BinaryCodec)]
 #[evolution(FieldAdded("x", 1u8), FieldAdded("y", 2u16))]
